@@ -41,6 +41,7 @@ import Props.Lemmas.C16_Glue
 import Props.Lemmas.C16_Root
 import Props.Lemmas.C16_JsonRoundTrip
 import Props.Lemmas.C16_JsonCoerce
+import Props.Lemmas.C09_Sim
 
 namespace Pypyr.C16
 open Pypyr.Codec
@@ -972,5 +973,115 @@ example : Json.print { ind := none, ascii := true } docK =
 /-- `indent=0`: newlines, no blanks. -/
 example : Json.print { ind := some 0 } (.list [.int 1, .dict [(.str "a", .flt 1 1)]]) =
     "[\n1,\n{\n\"a\": 0.5\n}\n]".toList := by decide +kernel
+
+
+/-! ## Position independence, entry order, and what a failed fileformat leaves (fourth round)
+
+  Entry ORDER is carried by the model: documents are association LISTS, `fmtDoc` rebuilds a mapping entry by entry in
+  order (`fmtDoc_dict_entries`: pairwise distinct formatted keys => exactly the formatted entries, in order), the JSON
+  printer writes members in list order and `json_roundtrip_coerce` is an equality of lists - so formatting a key (to a
+  string or to an int / bool / None / float that `coerceKeys` then spells as json.dump does) never moves its entry, and
+  a serialiser that sorted the members (or refused keys of mixed types) is not this model: the check compares the
+  entry order of every output document with the source's and reports a step that raises on a representable document.
+  `fmtDoc_in_list` / `fmtDoc_under_key`: a mapping is formatted the same wherever it sits in the tree.
+  `fileFormatFileS`: the files after a step that raised - the source is intact on every route
+  (`failed_fileformat_keeps_source`), in place nothing changes (`failed_fileformat_inplace_changes_nothing`); with an
+  `out` path the out file is left truncated (opened before formatting: compared by the harness as an observation). -/
+
+theorem Files.get?_set_other' {τ} (files : Files τ) (p q : String) (t : τ) (h : p ≠ q) :
+    (files.set p t).get? q = files.get? q := by
+  induction files with
+  | nil => simp [Files.set, Files.get?, h]
+  | cons a as ih =>
+    obtain ⟨k, v⟩ := a
+    by_cases hk : k = p
+    · subst hk; simp [Files.set, Files.get?, h]
+    · by_cases hq : k = q
+      · subst hq; simp [Files.set, Files.get?, hk]
+      · simp [Files.set, Files.get?, hk, hq, ih]
+
+/-- A mapping inside a list is formatted as it is formatted on its own: position in the tree does not matter. -/
+theorem fmtDoc_in_list (fuel : Nat) (ctx : Ctx) (d r : Val)
+    (h : fmtDoc (fuel + 1) ctx (.list [d]) = .ok r) :
+    ∃ d', r = .list [d'] ∧ fmtDoc (fuel + 1) ctx d = .ok d' := by
+  simp only [fmtDoc, fmtVal, fmtIter, mapE] at h
+  cases hd : fmtIter fuel ctx false d with
+  | error e => simp [hd, Except.map] at h
+  | ok d' =>
+    simp [hd, Except.map] at h
+    exact ⟨d', h.symm, C09.fmtIter_mono (Nat.le_succ _) hd⟩
+
+/-- …and so is a mapping under a key; the key itself goes through the same formatter. -/
+theorem fmtDoc_under_key (fuel : Nat) (ctx : Ctx) (k d r : Val)
+    (h : fmtDoc (fuel + 1) ctx (.dict [(k, d)]) = .ok r) :
+    ∃ fk d', r = .dict [(fk, d')] ∧ fmtDoc (fuel + 1) ctx k = .ok fk ∧ fmtDoc (fuel + 1) ctx d = .ok d' := by
+  simp only [fmtDoc, fmtVal, fmtIter, mapE] at h
+  cases hk : fmtIter fuel ctx false k with
+  | error e => simp [hk] at h
+  | ok fk =>
+    cases hv : fmtIter fuel ctx false d with
+    | error e => simp [hk, hv] at h
+    | ok fv =>
+      simp [hk, hv, rebuildDict, dictSet] at h
+      exact ⟨fk, fv, h.symm, C09.fmtIter_mono (Nat.le_succ _) hk, C09.fmtIter_mono (Nat.le_succ _) hv⟩
+
+/-- `ObjectRewriter.in_to_out` when it RAISES: what is on disk afterwards. A failure before the source is loaded
+    (missing, undecodable, unparsable) touches nothing. After that, with an `out` path that is another file, the
+    code has opened it for writing BEFORE the document is formatted and dumped: a failure of either leaves it
+    truncated (`trunc`: empty or partial text); in place, the temp file is removed and nothing changes. -/
+def fileFormatFileS {τ} (c : Codec τ) (fuel : Nat) (ctx : Ctx) (files : Files (Stored τ))
+    (inp : String) (out : Option String) (o : EncOpts) (dflt : String) (trunc : τ) :
+    Files (Stored τ) × Option Exc :=
+  match fileFormatFile c fuel ctx files inp out o dflt with
+  | .ok fs => (fs, none)
+  | .error e =>
+    match files.get? inp with
+    | none => (files, some e)
+    | some s =>
+      match s.readAs (o.inEnc dflt) with
+      | none => (files, some e)
+      | some src =>
+        match c.dec src with
+        | none => (files, some e)
+        | some _ =>
+          if targetOf inp out = inp then (files, some e)
+          else (files.set (targetOf inp out) ⟨o.outEnc dflt, trunc⟩, some e)
+
+/-- A fileformat step that raised leaves the SOURCE file exactly as it was, on every route. -/
+theorem failed_fileformat_keeps_source {τ} (c : Codec τ) (fuel : Nat) (ctx : Ctx) (files : Files (Stored τ))
+    (inp : String) (out : Option String) (o : EncOpts) (dflt : String) (trunc : τ) (e : Exc)
+    (h : (fileFormatFileS c fuel ctx files inp out o dflt trunc).2 = some e) :
+    (fileFormatFileS c fuel ctx files inp out o dflt trunc).1.get? inp = files.get? inp := by
+  unfold fileFormatFileS at h ⊢
+  split
+  · rename_i fs hok; simp [hok] at h
+  · split
+    · rfl
+    · split
+      · rfl
+      · split
+        · rfl
+        · split
+          · rfl
+          · rename_i hne
+            exact Files.get?_set_other' _ _ _ _ hne
+
+/-- In place (no out / out names the source) a failed step changes no file at all. -/
+theorem failed_fileformat_inplace_changes_nothing {τ} (c : Codec τ) (fuel : Nat) (ctx : Ctx)
+    (files : Files (Stored τ)) (inp : String) (out : Option String) (o : EncOpts) (dflt : String) (trunc : τ)
+    (e : Exc) (hin : targetOf inp out = inp)
+    (h : (fileFormatFileS c fuel ctx files inp out o dflt trunc).2 = some e) :
+    (fileFormatFileS c fuel ctx files inp out o dflt trunc).1 = files := by
+  unfold fileFormatFileS at h ⊢
+  split
+  · rename_i fs hok; simp [hok] at h
+  · split
+    · rfl
+    · split
+      · rfl
+      · split
+        · rfl
+        · simp [hin]
+
 
 end Pypyr.C16
